@@ -481,6 +481,11 @@ impl DiskCache {
             self.remove_item(key, cache_item)?;
             return Ok(false);
         };
+        // the header has to describe exactly the chunk range the file name claims
+        if header.chunk_byte_indices.len() != (cache_item.range.end - cache_item.range.start) as usize + 1 {
+            self.remove_item(key, cache_item)?;
+            return Ok(false);
+        }
 
         // validate the chunk_byte_indices and data input against stored data
         // the chunk_byte_indices should match the chunk lengths, if the ranges
